@@ -3,6 +3,7 @@
   (first layer: geometry, dispatch table, entry layout, a freshly initialised side passes the
    independent checker)
 -/
+import MotoModel.Proofs.GenFn
 import MotoModel.Proofs.DiskSector
 import MotoModel.Spec.Dos
 import MotoModel.Proofs.DiskByte0
@@ -122,5 +123,13 @@ theorem created_image_is_well_formed (fl : Flavour) (w : Tape.World) (verbose : 
   · intro k hk
     obtain ⟨bat, own, inv⟩ := hok.2 k hk
     exact fsck_strict _ (fsck_of_inv inv) (hp k hk)
+
+/-- **C04 (status rules, tied by translation)**: the status tests and the usage rule of
+    `block_allocation.py`, translated from the source on every run (Gen/Fn.lean), are the functions of
+    the model, for every status -/
+theorem generated_status_functions (s : Nat) :
+    Gen.Fn.isValidStatus s = validStatus s ∧ Gen.Fn.isFree s = isFree s ∧ Gen.Fn.isReserved s = isReserved s
+    ∧ Gen.Fn.isLast s = isLast s ∧ Gen.Fn.hasNext s = hasNext s ∧ Gen.Fn.usage s = usageOf s :=
+  ⟨GenFn.isValidStatus_eq s, GenFn.isFree_eq s, GenFn.isReserved_eq s, GenFn.isLast_eq s, GenFn.hasNext_eq s, GenFn.usage_eq s⟩
 
 end Moto.C04
